@@ -952,7 +952,7 @@ package calendar
 //@   = ite(sjdn(l.solar) >= jqDay(l, 25), jqDay(l, 25), jqDay(l, 1))
 
 //@ func (lunar *Lunar) GetShuJiu() *ShuJiu [C13]
-//@   requires 2 <= lunar.solar.year
+//@   requires 1 <= lunar.solar.year
 //@   ensures (result == nil) == !(0 <= sjdn(lunar.solar)-shuJiuBase(lunar) && sjdn(lunar.solar)-shuJiuBase(lunar) < 81)
 //@   ensures implies(result != nil, result.index == modf(sjdn(lunar.solar)-shuJiuBase(lunar), 9)+1 && result.name == LunarUtil.NUMBER[divf(sjdn(lunar.solar)-shuJiuBase(lunar), 9)+1]+"九")
 //@   hint current#1: sjdn(current) == sjdn(lunar.solar) && ssec(current) == 0 && inYears(current.year)
@@ -975,7 +975,7 @@ package calendar
 //@   ensures modf(j+modf(6-modf(j-11, 10), 10)+20-11, 10) == 6 && 20 <= modf(6-modf(j-11, 10), 10)+20 && modf(6-modf(j-11, 10), 10)+20 <= 29
 
 //@ func (lunar *Lunar) GetFu() *Fu [C13]
-//@   requires 2 <= lunar.solar.year
+//@   requires 1 <= lunar.solar.year
 //@   ensures (result == nil) == !(fuFirst(lunar) <= sjdn(lunar.solar) && sjdn(lunar.solar) < fuFirst(lunar)+ite(fuLong(lunar), 40, 30))
 //@   ensures implies(result != nil && sjdn(lunar.solar) < fuFirst(lunar)+10, result.name == "初伏" && result.index == sjdn(lunar.solar)-fuFirst(lunar)+1)
 //@   ensures implies(result != nil && fuFirst(lunar)+10 <= sjdn(lunar.solar) && sjdn(lunar.solar) < fuFirst(lunar)+ite(fuLong(lunar), 30, 20), result.name == "中伏" && result.index == sjdn(lunar.solar)-fuFirst(lunar)-9)
@@ -1028,7 +1028,7 @@ package calendar
 //@   use prevIdxInForce(lunar)
 
 //@ func (lunar *Lunar) GetHou() string [C13]
-//@   requires 2 <= lunar.solar.year
+//@   requires 1 <= lunar.solar.year
 //@   ensures result == convertJieQi(JIE_QI_IN_USE[prevIdx(lunar)])+" "+LunarUtil.HOU[houNo(sjdn(lunar.solar)-jqDay(lunar, prevIdx(lunar)))]
 //@   use solarOrder(jqs(lunar, k), lunar.solar) for k in 0..30
 //@   use prevIdxInForce(lunar)
@@ -1037,7 +1037,7 @@ package calendar
 //@   split prevIdx(lunar) in 0..30
 
 //@ func (lunar *Lunar) GetWuHou() string [C13]
-//@   requires 2 <= lunar.solar.year
+//@   requires 1 <= lunar.solar.year
 //@   ensures result == LunarUtil.WU_HOU[modf(modf(prevIdx(lunar)+23, 24)*3+houNo(sjdn(lunar.solar)-jqDay(lunar, prevIdx(lunar))), 72)]
 //@   use solarOrder(jqs(lunar, k), lunar.solar) for k in 0..30
 //@   use prevIdxInForce(lunar)
@@ -1120,7 +1120,7 @@ package calendar
 //@ spec func sheDay(j int) int
 //@   = j + modf(4-modf(j-11, 10), 10) + 40
 //@ func (lunar *Lunar) GetOtherFestivals() *list.List [C13]
-//@   requires 2 <= lunar.solar.year
+//@   requires 1 <= lunar.solar.year
 //@   ensures lhas(result, "寒食节") == (sjdn(lunar.solar) == jqDay(lunar, 8)-1)
 //@   ensures lhas(result, "春社") == (sjdn(lunar.solar) == sheDay(jqDay(lunar, 4)))
 //@   ensures lhas(result, "秋社") == (sjdn(lunar.solar) == sheDay(jqDay(lunar, 16)))
